@@ -319,6 +319,103 @@ def work_invoke(payload, skip, report):
     return acc
 
 
+# --- calls whose NAME is computed by another call ------------------------------------------------------------
+NLIB = {"sel": "other", "th": "ther", "other": "O[{{{1|}}}{{{a|}}}]"}
+# (the tight form "{{{{sel}}}}" is left out: four braces open a parameter reference first)
+NAME_PARTS = [["\n", "{{sel}}"], [" ", "{{sel}}", " "], ["{{sel}}", "x"], ["o", "{{th}}"], ["{{sel}}", "\n"]]
+NAME_ARGS = [[], ["1"], ["{{sel}}"], ["a={{sel}}"], ["{{th}}", "a=2"]]
+NAME_SETS = [None, [], ["sel"], ["other"], ["sel", "other"], ["sel", "th", "other"], ["th"]]
+
+
+def name_ref(parts, args, te, all_, hooks):
+    """Reference for one computed-name call: returns (output, template_fn calls, post_template_fn calls)."""
+    tfc, ptfc = [], []
+
+    def call0(name, everything):
+        if not (everything or (te is not None and name in te)):
+            return "{{" + name + "}}"
+        if hooks:
+            tfc.append((name, ()))
+            ptfc.append((name, (), NLIB[name]))
+        return NLIB[name]
+
+    def ev(text, everything):
+        for n in ("sel", "th"):
+            if "{{" + n + "}}" in text:
+                text = text.replace("{{" + n + "}}", call0(n, everything), 1)
+        return text
+
+    name_exp = "".join(ev(x, all_) for x in parts)
+    tname = name_exp.strip()
+    chosen = "{{" not in tname and (all_ or (tname in NLIB and te is not None and tname in te))
+    if not chosen:
+        return "{{" + name_exp + "".join("|" + ev(a, all_) for a in args) + "}}", tfc, ptfc
+    amap, num = {}, 1
+    for a in args:
+        if "=" in a:
+            k, v = a.split("=", 1)
+            amap[k] = ev(v, True).strip()
+        else:
+            amap[num] = ev(a, True)
+            num += 1
+    key = tuple(sorted(amap.items(), key=str))
+    if tname in NLIB:
+        res = NLIB[tname]
+        if tname == "other":
+            res = "O[" + amap.get(1, "") + amap.get("a", "") + "]"
+    else:
+        res = "[[:Template:" + tname + "]]"
+    if hooks:
+        tfc.append((tname, key))
+        ptfc.append((tname, key, res))
+    return res, tfc, ptfc
+
+
+def work_names(payload, skip, report):
+    """A call in the name position of another call: the inner call is expanded once (one template_fn / post_template_fn
+    call), whether the outer call is then expanded or re-emitted."""
+    acc = Acc(PROP)
+    ctx = new_ctx()
+    for n, b in NLIB.items():
+        ctx.add_page("Template:" + n, 10, b)
+    ctx.db_conn.commit()
+    i = 0
+    for parts, args, te, pre, hooks in itertools.product(NAME_PARTS, NAME_ARGS, NAME_SETS, (True, False), (False, True)):
+        report(i)
+        i += 1
+        text = "x{{" + "".join(parts) + "".join("|" + a for a in args) + "}}y"
+        case = {"page": text, "config": {"templates_to_expand": te, "pre_expand": pre, "hooks": hooks}}
+        want, wtf, wptf = name_ref(parts, args, te, not pre, hooks)
+        want = "x" + want + "y"
+        tfc, ptfc = [], []
+
+        def tf(name, a):
+            tfc.append((name, tuple(sorted(a.items(), key=str))))
+
+        def ptf(name, a, e):
+            ptfc.append((name, tuple(sorted(a.items(), key=str)), e))
+
+        ctx.start_page("Tt")
+        acc.case()
+        acc.distinct("configs", ("name", text, te, pre, hooks))
+        try:
+            got = ctx.expand(text, pre_expand=pre, templates_to_expand=None if te is None else set(te),
+                             template_fn=tf if hooks else None, post_template_fn=ptf if hooks else None)
+        except Exception as e:
+            acc.violation("no_exception", case, type(e).__name__ + ": " + str(e)[:100], "returns")
+            continue
+        if got != want:
+            acc.violation("computed_name_call_equals_reference", case, got, want)
+        elif sorted(tfc, key=str) != sorted(wtf, key=str):
+            acc.violation("template_fn_once_per_expanded_call", case, sorted(tfc, key=str), sorted(wtf, key=str))
+        elif sorted(ptfc, key=str) != sorted(wptf, key=str):
+            acc.violation("post_template_fn_sees_default_expansion", case, sorted(ptfc, key=str), sorted(wptf, key=str))
+        if i % 97 == 0:
+            acc.sample(case)
+    close_ctx(ctx)
+    return acc
+
+
 def replay(case):
     """Replays one (page text, configuration) case; the page is re-found in the generated page list by its text."""
     ctx = make_ctx(case["config"].get("ctx"))
@@ -365,6 +462,8 @@ def main(run):
         run.acc.merge(acc)
     for cid, acc, hung in run_chunks(work_invoke, [("invoke",)], nproc=1, case_timeout=60):
         run.acc.merge(acc)
+    for cid, acc, hung in run_chunks(work_names, [("names",)], nproc=1, case_timeout=60):
+        run.acc.merge(acc)
     cov = {
         "distinct_nontrivial": len(run.acc.sets.get("configs", ())),
         "pages": len(pages(run.tier)),
@@ -378,6 +477,7 @@ def main(run):
     }
     assumptions = [
         "selection rule taken from the expand() docstring: under pre_expand a template is expanded iff it exists, is not in templates_to_not_expand and is flagged need_pre_expand or in templates_to_expand; without pre_expand everything is expanded",
+        "computed names: %d pages whose call name is produced by another call (5 name shapes x 5 argument lists x 7 selections x pre_expand x hooks) against a 30-line reference written for that family" % (len(NAME_PARTS) * len(NAME_ARGS) * len(NAME_SETS) * 4),
         "expand_invoke: a dedicated slice (5 pages with #invoke in bodies / arguments / siblings x switch x pre_expand x hook x repeated calls) with hand-written expectations",
     ]
     return run.finish(cov, assumptions, replay_fn=replay)
